@@ -59,6 +59,35 @@ claim(
     "DESIGN.md §5 C10",
 )
 
+claim(
+    "C07",
+    "CrossHair symbolic execution (z3) of the real accounting loops (EndpointCollection.from_data, _create_schemas, _process_model_errors) with nondeterministic per-item stubs",
+    "For every failing subset, tag assignment and generate_all_tags setting (3 operations), and every success/failure table (3 components), each item ends up generated or named in a diagnostic carrying METHOD and path / the component reference; removal cascades list every removed reference.",
+    "Per-item builders are stubs; the census on whole documents is a concrete replay oracle over the skeleton family (labelled engine=replay in evidence), not a solver verdict; silent module-file collisions (AB/Ab) are only covered by the E1 collision query of C09/C19.",
+    "DESIGN.md §5 C07",
+)
+claim(
+    "C08",
+    "CrossHair symbolic execution (z3) of the real removal cascade over symbolic dependency graphs, of the failed-builder-step state preservation, and of endpoint containment with stubs",
+    "Removed set = reverse-reachable closure of the failing models for every 3-node (4 thorough) dependency graph and failing subset, nothing else is removed; a failed property_from_data/update_schemas_with_data step leaves every registered class in place; the endpoints of non-failing operations are the same with and without the failing ones.",
+    "Bad pieces come from a pool of 8 invalid schemas; the byte-level differential on whole documents (bad piece inserted at a position of each skeleton) is a concrete replay oracle over a finite choice set.",
+    "DESIGN.md §5 C08",
+)
+claim(
+    "C12",
+    "CrossHair symbolic execution (z3) of real parsing + Jinja rendering with set iteration order and declaration order as symbolic permutations",
+    "For every explored permutation of components.schemas (allOf parent after child, mutual references), of paths, and of the iteration order of every import set, the rendered model and endpoint modules equal the canonical rendering byte for byte.",
+    "Bounds: 4 schemas / 3 paths / 6-24 permutations; union templates are outside the symbolic run (jinja Namespace vs CrossHair) and covered by the subprocess replay under different PYTHONHASHSEED and shuffled documents; ruff post-hooks outside the claim.",
+    "DESIGN.md §5 C12",
+)
+claim(
+    "C20",
+    "CrossHair symbolic execution (z3) of the real resolvers (parameters, responses, request-body chains, schema references) against their inline twins",
+    "For every pooled parameter (location x kind x name x required), response content and schema kind the referenced component yields the same endpoint/property description as the inline copy, every reference to one schema shares one class object, every malformed/dangling/circular reference is a diagnostic that leaves Schemas/Parameters untouched.",
+    "urlparse is not encoded (reference strings from a pool); byte-identity of endpoint modules for ref-vs-inline documents is a concrete replay oracle on three twin documents.",
+    "DESIGN.md §5 C20",
+)
+
 ALL = [f"C{i:02d}" for i in range(1, 21)]
 
 
